@@ -229,6 +229,28 @@ def r32(e: Engine, rep: Report):
     writers = common.owner_closure(e, QUEUE, QUEUED_WRITERS)
     for mname, m in sorted(c.methods.items()):
         writes = []
+        # locals that stand for the timetable (`queued = self.queued`): a
+        # write through the alias is a write of the timetable - of the
+        # object the alias was taken from, which a rebinding writer
+        # (_check_ready, flush) may have replaced meanwhile
+        alias = {t.id for a in walk_own(m.node)
+                 if isinstance(a, ast.Assign) and
+                 ast.unparse(a.value) == 'self.queued'
+                 for t in a.targets if isinstance(t, ast.Name)}
+        for n in walk_own(m.node):
+            if isinstance(n, ast.Call) and alias:
+                if isinstance(n.func, ast.Attribute) and \
+                        isinstance(n.func.value, ast.Name) and \
+                        n.func.value.id in alias and \
+                        n.func.attr in ('append', 'insert', 'extend', 'pop',
+                                        'remove', 'clear', 'sort'):
+                    writes.append(n)
+                elif ast.unparse(n.func).split('.')[-1] in (
+                        'insort', 'insort_left', 'insort_right',
+                        'heappush') and any(
+                        isinstance(a, ast.Name) and a.id in alias
+                        for a in n.args):
+                    writes.append(n)
         for n in walk_own(m.node):
             tg = []
             if isinstance(n, ast.Assign):
